@@ -15,11 +15,12 @@ Local Open Scope Z_scope.
 
 Definition bitlen (u : Z) : Z := if u <=? 0 then 0 else Z.log2 u + 1.
 
-(* byte i (from the most significant) of the n-byte big-endian two's-complement representation *)
+(* n-byte big-endian two's-complement representation: the byte of weight 256^k is floor(u / 2^(8k)) mod 256
+   (Z.shiftr u m is floor(u / 2^m), also for negative u: Z.shiftr_div_pow2; used because it evaluates fast) *)
 Fixpoint spec_be (n : nat) (u : Z) : list Z :=
   match n with
   | O => []
-  | S k => (u / 2 ^ (8 * Z.of_nat k)) mod 256 :: spec_be k u
+  | S k => (Z.shiftr u (8 * Z.of_nat k)) mod 256 :: spec_be k u
   end.
 
 (* signed value of a big-endian two's-complement byte string *)
